@@ -132,6 +132,18 @@ func c12(c *Ctx) {
 		if err != nil {
 			die(err)
 		}
+		// printing reads the file: the same printer asked again, a fresh printer, and the other printer having
+		// run in between all give the same bytes
+		{
+			sp := printer.NewStubs(cfg)
+			s1, _ := sp.Print(f)
+			s2, _ := sp.Print(f)
+			a2, _ := printer.NewGoAsm(cfg).Print(f)
+			s3, _ := printer.NewStubs(cfg).Print(f)
+			if string(s1) != string(stub) || string(s2) != string(stub) || string(s3) != string(stub) || string(a2) != string(asm) {
+				o.Plan.GoViolations = append(o.Plan.GoViolations, GoViolation{Key: "stub:print-not-repeatable", Desc: fmt.Sprintf("case %d: printing the same file again gives different text (stubs: %v %v %v, assembly: %v): %s", idx, string(s1) == string(stub), string(s2) == string(stub), string(s3) == string(stub), string(a2) == string(asm), desc), Replay: map[string]any{"functions": desc}})
+			}
+		}
 		cons := ""
 		if len(f.Constraints) > 0 {
 			cons, _ = buildtags.Format(f.Constraints)
